@@ -336,6 +336,10 @@ func held(m interface{}) bool { panic("spec") }
 // nolocks(): no mutex is held; onlyheld(m): m is held and no other mutex is
 func nolocks() bool { panic("spec") }
 func onlyheld(m interface{}) bool { panic("spec") }
+// lockswap(from, to): the held mutexes are those of the pre-state with from released and to
+// acquired; lockdrop(from): ... with from released (two-state)
+func lockswap(from, to interface{}) bool { panic("spec") }
+func lockdrop(from interface{}) bool { panic("spec") }
 // ghost(name, obj): ghost integer attribute "name" of object obj (a heap class "g:<name>")
 func ghost(name string, obj interface{}) int { panic("spec") }
 func LE16(b []byte, i int) uint16 { return uint16(b[i]) | uint16(b[i+1])<<8 }
